@@ -272,9 +272,80 @@ def run(tier):
         else:
             stats["caller_protection_cases"] += 1
             v.distinct(("prot", what, arg))
+    # ---- SEVERAL live library-managed instances of one thread growing ALTERNATELY (their mappings are neighbours; whatever the library
+    # keeps about 'the' buffer outside the instance - a last pointer, a high-water mark - then belongs to the wrong one), one of them
+    # destroyed in the middle while the others go on growing; real and forced-move mremap
+    acases, ameta = [], []
+    for k in range(12 if not full else 300):
+        nlive = rnd.choice([2, 2, 3])
+        Ks = [0x7788990000000000 + 16 * k + i for i in range(nlive)]
+        progs_ = [sled(rnd.choice([9000, 14000, 20000, 31000]) + rnd.randrange(0, 50), rnd, Ks[i]) for i in range(nlive)]
+        cuts_ = []
+        for pl in progs_:
+            npart = rnd.randrange(3, 9)
+            cc = sorted(rnd.sample(range(1, len(pl)), npart - 1))
+            cuts_.append([pl[a:b] for a, b in zip([0] + cc, cc + [len(pl)])])
+        cmds = ["wrap reset", "wrap forcemove %d" % (k % 2)]
+        for i in range(nlive):
+            cmds += ["new %d int" % (2 * i), "new %d ext 65536 H 0xcc" % (2 * i + 1)]
+        order = [(i, j) for i in range(nlive) for j in range(len(cuts_[i]))]
+        order.sort(key=lambda t: (t[1], rnd.random()))  # round robin over the instances, random order within a round
+        victim = rnd.randrange(nlive) if k % 2 else None
+        checks = []
+        done = [0] * nlive
+        for (i, j) in order:
+            if victim == i and j >= 2:
+                if j == 2:
+                    cmds += ["del %d" % (2 * i)]  # this one goes away while the others keep growing
+                continue
+            hx_ = common.hx("\n".join(cuts_[i][j]) + "\n")
+            base_ = len(cmds)
+            cmds += ["asm %d %s" % (2 * i, hx_), "asm %d %s" % (2 * i + 1, hx_), "sumoff %d" % (2 * i), "sumoff %d" % (2 * i + 1)]
+            checks.append((i, j, base_))
+            done[i] = j + 1
+        execs = []
+        for i in range(nlive):
+            if victim == i:
+                continue
+            execs.append((i, len(cmds)))
+            cmds.append("exec %d" % (2 * i))
+        cmds.append("wrapreport")
+        acases.append(cmds)
+        ameta.append((nlive, victim, checks, execs, Ks))
+    ares = common.run_cases(binary, acases, tag="c08a", per_case_timeout=60)
+    stats["alternating_instances_cases"] = 0
+    for (nlive, victim, checks, execs, Ks), cmds, r in zip(ameta, acases, ares):
+        v.count()
+        case = {"key": "%d live instances growing alternately%s" % (nlive, ", #%d destroyed in the middle" % victim if victim is not None else ""), "fam": "growth_alternating", "script": cmds if len(str(cmds)) < 4000 else None}
+        if r["crash"]:
+            v.violation(case, r["crash"]["sig"], (r["crash"]["what"] + "\n" + r["crash"]["stderr"][-800:]))
+            continue
+        recs = r["records"]
+        bad = None
+        for (i, j, b) in checks:
+            a0, a1, s0, s1 = recs[b].split(), recs[b + 1].split(), recs[b + 2].split(), recs[b + 3].split()
+            if a1[1] != "0":
+                bad = ("precondition:call-failed-on-ample-caller-buffer", " ".join(a1))
+            elif a0[1] != "0":
+                bad = ("call-failed-on-internal-buffer", "instance %d part %d: %s" % (i, j, " ".join(a0)))
+            elif s0[1:] != s1[1:]:
+                bad = ("code-differs-from-reference", "instance %d after part %d: %s vs %s" % (i, j, s0[1:], s1[1:]))
+            if bad:
+                break
+        if not bad:
+            for (i, b) in execs:
+                e = recs[b].split()
+                if e[:2] != ["V", "ok"] or int(e[2], 16) != Ks[i]:
+                    bad = ("execution:" + "-".join(e[1:3]), "instance %d: got %s want 0x%x" % (i, " ".join(e), Ks[i]))
+                    break
+        if bad:
+            v.violation(case, bad[0], bad[1])
+        else:
+            stats["alternating_instances_cases"] += 1
+            v.distinct(("alt", nlive, victim, len(checks)))
     v.cov["rule"] = ("executable programs (multi-byte-nop sled + mov rax,K + ret) whose plain length is 6000*m + r for every r in -24..24 (m = %s) so the last instructions start at every distance from the growth "
                      "threshold; single call and 2-50 calls; plain / chunk fitting (8 sizes) / counting; long programs of 300 kB .. 4 MiB of code (thorough: up to 8 MiB: > 1000 growths in one instance) compared and executed the same way; ld --wrap mremap forces EVERY growth to move the mapping (old range unmapped). After every call "
-                     "(offset, FNV hash of asm_get_code[0,offset)) must equal the same calls on a 1 MiB caller buffer, and calling asm_get_code() must return K; plus growth after the CALLER has changed the protection / advice of finished pages (mprotect read+exec, MADV_DONTDUMP, MADV_HUGEPAGE: the mapping is split, the kernel may refuse the growth - reported, retried after undoing - or the growth succeeds and the code must run); plus sequences of asm_set_offset (ahead of / behind the code so far, up to 300000) + assemble, each call's region and offset compared with the caller buffer" % mults)
+                     "(offset, FNV hash of asm_get_code[0,offset)) must equal the same calls on a 1 MiB caller buffer, and calling asm_get_code() must return K; plus 2-3 live library instances of one thread growing alternately (one of them destroyed in the middle), each compared with its caller-buffer twin after every call and executed; plus growth after the CALLER has changed the protection / advice of finished pages (mprotect read+exec, MADV_DONTDUMP, MADV_HUGEPAGE: the mapping is split, the kernel may refuse the growth - reported, retried after undoing - or the growth succeeds and the code must run); plus sequences of asm_set_offset (ahead of / behind the code so far, up to 300000) + assemble, each call's region and offset compared with the caller buffer" % mults)
     v.cov["exhaustive"] = False
     v.cov.update(stats)
     return v.finish(None, stats["growths"] > 50 and stats["executions_ok"] > 50 and stats.get("cases_with_growth", 0) > 0.8 * len(cases), "too few growth events: %r" % stats)
